@@ -117,7 +117,7 @@ def histories(draw):
         # keep free-start histories bounded below: strictly convex objectives, minimised
         steps = [(["minimize", CONVEX[st_[1] % len(CONVEX)]] if st_[0] in ("minimize", "maximize") else st_) for st_ in steps
                  if st_[0] != "flip"]
-    return {"steps": steps, "free_start": free_start}
+    return {"steps": steps, "free_start": free_start, "deep_algorithms": draw(st.integers(0, 5)) == 0}
 
 
 def strategy(tier):
